@@ -262,9 +262,18 @@ func cmdCheck(args []string) int {
 	violations := 0
 	knownMatched := []string{}
 	var undecided []string
+	// a function that is under an explicit contract for this property and cannot be decided
+	// (contract no longer evaluates against the code, function left the supported subset) means the
+	// property is NOT shown: reported as a violation without a failing input. Zero-annotation sweep
+	// functions outside the subset are listed as uncovered instead.
+	var undecidedContract []string
 	for _, r := range reports {
 		if r.Undecided != "" {
-			undecided = append(undecided, r.Key+": "+r.Undecided)
+			if r.Mode == "contract" {
+				undecidedContract = append(undecidedContract, r.Key+": "+r.Undecided)
+			} else {
+				undecided = append(undecided, r.Key+": "+r.Undecided)
+			}
 		}
 	}
 	var cfns []string
@@ -347,6 +356,23 @@ func cmdCheck(args []string) int {
 		}
 		os.WriteFile(rf, []byte(sb.String()), 0o644)
 		fmt.Printf("VIOLATION property=%s replay=%s obligation=%s result=%s%s\n", *prop, rf, n, b.Result, suffix)
+	}
+	for _, u := range undecidedContract {
+		violations++
+		os.MkdirAll(replayDir, 0o755)
+		fnKey := u
+		if i := strings.Index(u, ": "); i > 0 {
+			fnKey = u[:i]
+		}
+		rf := filepath.Join(replayDir, mangle(fnKey+"#contract-applies")+".txt")
+		var sb strings.Builder
+		sb.WriteString("failed obligation: " + fnKey + "#contract-applies\nproperty: " + *prop + "\nthe contract of this function could not be checked against the current code, so the property is not shown for it:\n" + u + "\n")
+		suffix := " no-failing-input-found"
+		if tryReplay(*verif, *repo, *prop, fnKey+"#contract-applies", nil, &sb) {
+			suffix = ""
+		}
+		os.WriteFile(rf, []byte(sb.String()), 0o644)
+		fmt.Printf("VIOLATION property=%s replay=%s obligation=%s#contract-applies result=undecided%s\n", *prop, rf, fnKey, suffix)
 	}
 	for _, u := range undecided {
 		fmt.Printf("UNDECIDED property=%s reason=%s\n", *prop, u)
@@ -534,7 +560,12 @@ func tryReplay(verif, repo, prop, name string, bad []*Obligation, sb *strings.Bu
 		text = text[:4000] + "\n..."
 	}
 	fmt.Fprintf(sb, "\n--- replay on the real code (%s, %s) ---\ncounterexample values: %s\n%s\n", ent.File, ent.Run, string(ce), text)
-	return strings.Contains(text, "REPRODUCED:")
+	for _, l := range strings.Split(text, "\n") {
+		if strings.HasPrefix(strings.TrimSpace(l), "REPRODUCED:") {
+			return true
+		}
+	}
+	return false
 }
 
 // matchOnly: substring match; a trailing '$' anchors at the end of the key.
